@@ -553,6 +553,77 @@ def validate_M_layout(mjm_unused=None, m_unused=None):
   return None
 
 
+# ------------------------------------------------------------------------------------------------ compact-aware solver kernels
+
+
+def rel_specs():
+  from mujoco_warp._src import solver, types
+
+  return {
+    "linesearch_jv_fused": lambda C: solver._linesearch_jv_fused_kernel(True, 4, 4, C),
+    "solve_init_jaref": lambda C: solver._solve_init_jaref_kernel(True, 4, 4, C),
+    "update_constraint_init_qfrc_constraint_sparse": lambda C: solver._update_constraint_init_qfrc_constraint_sparse(C),
+    "update_gradient_init_h_sparse": lambda C: solver._update_gradient_init_h_sparse(C),
+    "update_gradient_h_incremental_sparse": lambda C: solver._update_gradient_h_incremental_sparse(C),
+    "JTDACJ_sparse": lambda C: solver._JTDACJ_sparse(C, types.ConeType.PYRAMIDAL, 3),
+  }
+
+
+def unit_compact_kernels(ctx):
+  """the COMPACT=True closures of the sparse solver kernels (they read J / M through dof_cdof / cdof_dof) write exactly what
+  their COMPACT=False twins write when the maps are the identity (every tree awake): one generic thread, symbolic sizes"""
+  from checks import lib
+  from wsym import replay as wreplay
+
+  c28.engine_workaround()
+  ctx.bound(unroll=3, shape_cap=6, note="sparse rows with <= 3 entries (unwinding assumption), array dims <= 6")
+  ctx.assume("identity maps: every dof_cdof / cdof_dof entry read by the thread equals its index", "float multiplication is an uninterpreted commutative function shared by both kernels", "own accesses in bounds, loops within the unroll bound (assumed, K mode)")
+  for name, B in rel_specs().items():
+    try:
+      kt1 = lib.kernel_thread(B(True), unroll=3, interp_kw={"float_uf": True})
+      kt0 = lib.kernel_thread(B(False), unroll=3, interp_kw={"float_uf": True})
+    except core.Unsupported as ex:
+      ctx.notes.append(f"skipped (nothing claimed): {name}: {ex}")
+      continue
+    ctx.encode(B(True), B(False))
+    ident = []
+    for a in kt1.it.accesses:
+      if a.cell.name in ("dof_cdof_in", "cdof_dof_in") and a.kind == "R":
+        ident.append(core.zbool(Implies(a.guard, cmp("==", a.val, a.idx[-1]))))
+    extra = []
+    if name == "update_gradient_init_h_sparse":
+      extra = [kt1.tid[1] < kt1.args["nv"], kt1.tid[2] < kt1.args["nv"]]
+      ctx.assume("update_gradient_init_h_sparse: thread inside the nv x nv block (the padded tail differs by design: identity vs 0)")
+    sess = ctx.session([fmul_commutes()] + kt1.bg + kt0.bg + ident + extra)
+    ctx.reach(sess, f"twin:{name}", True)
+    written = sorted({a.cell.name for kt in (kt1, kt0) for a in kt.it.accesses if a.kind.startswith(("W", "A"))})
+    for lab in written:
+      c1, c0 = kt1.cell(lab), kt0.cell(lab)
+
+      def rp(model, name=name, kt1=kt1, lab=lab):
+        conc_args = wreplay.concretize_args(model, kt1.kernel, kt1.args)
+        t = kt1.tid if isinstance(kt1.tid, tuple) else (kt1.tid,)
+        return write_and_run(ctx, f"compact-equals-plain/{name}/{lab}", {"kind": "rel", "builder": name, "label": lab, "args": conc_args, "tid": [int(kh.mval(model, x)) for x in t]})
+
+      ctx.prove(sess, f"compact-equals-plain/{name}/{lab}", z3.And(*[c1.a[k] == c0.a[k] for k in range(c1.ncomp)]), True, replay=rp, desc=f"with identity maps the COMPACT variant of {name} writes {lab} differently from the plain sparse kernel")
+
+
+def real_rel(sp):
+  from wsym import replay as wreplay
+
+  outs = []
+  for C in (True, False):
+    k = rel_specs()[sp["builder"]](C)
+    st, ndim = wreplay.single_thread_kernel(k)
+    vals, arrays = wreplay.build_arrays(json.loads(json.dumps(sp["args"])), kh.arg_specs(k))
+    tid = list(sp["tid"])[:ndim] + [0] * max(0, ndim - len(sp["tid"]))
+    wp.launch(st, dim=1, inputs=vals + [int(x) for x in tid], device="cpu")
+    wp.synchronize()
+    outs.append(np.asarray(arrays[sp["label"]].numpy(), dtype=float))
+  same = bool(np.allclose(outs[0], outs[1], rtol=1e-4, atol=1e-5, equal_nan=True))
+  return (not same), f"{sp['builder']} thread {sp['tid']}: {sp['label']} compact {outs[0].tolist()} vs plain {outs[1].tolist()}"
+
+
 # ------------------------------------------------------------------------------------------------ replay plumbing
 
 
@@ -581,7 +652,7 @@ def write_and_run(ctx, qn, sp):
 
 
 def main(tier, seed, only=None):
-  units = [unit_maps(3), unit_gather("dense"), unit_gather("sparse")]
+  units = [unit_maps(3), unit_gather("dense"), unit_gather("sparse"), ("compact-kernels", unit_compact_kernels)]
   if tier == "thorough":
     units += [unit_maps(4), unit_gather("dense", 4), unit_gather("sparse", 4)]
   if only:
@@ -595,7 +666,7 @@ if __name__ == "__main__":
   if "--debug" in sys.argv:
     wp.config.mode = "debug"
     wp.config.kernel_cache_dir = os.path.join(report.VERIF, ".wpcache", "replay_debug")
-  ok_, text_ = (real_maps if sp_["kind"] == "maps" else real_gather)(sp_)
+  ok_, text_ = {"maps": real_maps, "gather": real_gather, "rel": real_rel}[sp_["kind"]](sp_)
   if "--debug" in sys.argv:
     print("NOT-REPRODUCED: completed under the bounds-checked build")
     sys.exit(3)
